@@ -586,8 +586,10 @@ class Parser:
                 f"Values in 'string_constants' section must evaluate to string type not {type(value)}. {name}: {value} -> {self.current_file}"
             )
 
+        # double-quoted literal with quotes, backslashes and control characters escaped
+        # (valid as written in Python, C and JavaScript source)
         self.string_constants[name] = ConstantString(
-            name, value=f'"{value}"', src=self.trim_root(self.current_file)
+            name, value=json.dumps(value), src=self.trim_root(self.current_file)
         )
 
     def handle_alias(self, alias: str, ftype: str):
